@@ -257,6 +257,9 @@ fn run_segment(si: SegIn) -> SegOut {
                           out: &mut SegOut| {
         let mut k = 0;
         while k < n && *cur < nlines && !out.poisoned {
+            if let Proc::Sim(vp) = p {
+                vp.apply_file_updates(&si.job.env.file_updates, *cur);
+            }
             let obs = p.exec_line(&si.job.lines[*cur]);
             if si.stop_on_panic
                 && matches!(obs.result, LineResult::Panic { .. } | LineResult::Budget)
